@@ -167,6 +167,17 @@ def fault_plan(rng):
 
 
 def run_shard(ctx):
+    try:
+        _run_shard(ctx)
+    finally:
+        # the wrapping section datatypes of the family load a schema and a
+        # configuration of their own while the outer load is in progress
+        import zcverif_dt.fam
+        ctx.res.hook("nested_loads_from_datatypes",
+                     zcverif_dt.fam.REENTRIES[0])
+
+
+def _run_shard(ctx):
     rng = ctx.rng("entries")
     for p in cc.pairs(ctx, N_MODELS[ctx.tier], TEXTS[ctx.tier],
                       fault_plan=fault_plan, p_bad_value=0.01):
